@@ -211,7 +211,16 @@ def make_functor(c, obs, ars):
     ob = {c.ty([[n, 0]]): c.ty(t) for n, t in obs}
     ar = {c.box(b): interp(c, img) for b, img in ars}
     if CALLABLE_FUNCTORS:
-        return c.Functor(lambda x: ob[x], lambda f: ar[f])
+        # a TOTAL callable, as user code would write it: it answers for any box it is handed
+        # (building an image from the box's name and types), so that a library that wrongly
+        # hands it a daggered box gets an answer that differs from F(box).dagger()
+        types = c.Functor(lambda x: ob[x], {})
+
+        def arf(f):
+            if f in ar:
+                return ar[f]
+            return c.Box("n999", types(f.dom), types(f.cod))
+        return c.Functor(lambda x: ob[x], arf)
     return c.Functor(ob, ar)
 
 
